@@ -62,6 +62,7 @@ def run(chk: Check) -> None:
     run_loop_else_outside_loop(chk, ix)
     run_single_typevartuple(chk, ix)
     run_unpacked_item_asserts(chk, ix)
+    run_capture_nodes_are_any_symbol(chk, ix)
 
     r1 = chk.rule("R20.1", "every loop that re-queues deferred work has a per-iteration counter compared with a constant bound that exits the loop; type-checker deferral is limited by pass_num < last_pass", floor=7)
     n_loops = 0
@@ -905,3 +906,25 @@ def run_unpacked_item_asserts(chk: Check, ix) -> None:
                         r18.violation(key, f.loc(a), f"`{v}` is the content of an UnpackType and no earlier test in the function handles `TypeVarTupleType`: for `tuple[int, *Ts]` the assertion fails (INTERNAL ERROR, exit 2; the daemon dies)")
     if n < 8:
         raise AnalysisError(f"only {n} Instance assertions on unpacked variadic items found")
+
+
+def run_capture_nodes_are_any_symbol(chk: Check, ix) -> None:
+    """R20.19: the node of a capture name in a match statement is not assumed to be a Var."""
+    r19 = chk.rule("R20.19", "a capture pattern binds a NameExpr; the semantic analyzer gives it a new Var only when the name is free, otherwise the node is whatever the name already refers to (a class, a function: `case K:` reports 'Cannot assign to a type' and checking goes on). checkpattern.py therefore never asserts that the `.node` of an expression taken from a captures map is a `Var` (SymbolNode is what the callers need: a dictionary key and a name)", floor=1)
+    m = ix.module("mypy.checkpattern")
+    n = 0
+    for f in list(m.functions.values()) + [mm for c in m.classes.values() for mm in c.methods.values()]:
+        node_names = {a.targets[0].id for a in ast.walk(f.node) if isinstance(a, ast.Assign) and len(a.targets) == 1 and isinstance(a.targets[0], ast.Name) and isinstance(a.value, ast.Attribute) and a.value.attr == "node"}
+        for a in ast.walk(f.node):
+            if not isinstance(a, ast.Assert):
+                continue
+            for c in ast.walk(a.test):
+                if isinstance(c, ast.Call) and call_name(c) == "isinstance" and len(c.args) == 2 and ((isinstance(c.args[0], ast.Name) and c.args[0].id in node_names) or (isinstance(c.args[0], ast.Attribute) and c.args[0].attr == "node")):
+                    n += 1
+                    key = f"checkpattern.{f.name}: the node of a captured name may be any symbol"
+                    if norm(c.args[1]) in ("SymbolNode", "(SymbolNode,)"):
+                        r19.ok(key, f.loc(a))
+                    else:
+                        r19.violation(key, f.loc(a), f"`{norm(a.test)[:70]}`: for `class K: ...` / `match 2: case [K] | K: pass` the node is the TypeInfo of K and the assertion fails (INTERNAL ERROR, exit 2)")
+    if n < 1:
+        raise AnalysisError("checkpattern: no assertion on the node of a captured name found (get_var expected)")
